@@ -120,6 +120,11 @@ impl Header {
     ) -> Result<(), Error> {
         let message_length =
             u16::try_from(content_length + self.wire_size()).map_err(|_| Error::Invalid)?;
+        // Header::new does not validate the minor version; only 4 bits each
+        // exist on the wire.
+        if self.version.major >= 0x10 || self.version.minor >= 0x10 {
+            return Err(Error::Invalid);
+        }
         buffer[0] = ((self.sdo_id.high_byte()) << 4) | ((content_type as u8) & 0x0f);
         buffer[1] = self.version.as_byte();
         buffer[2..4].copy_from_slice(&message_length.to_be_bytes());
